@@ -1,5 +1,6 @@
 import NemoVerif.Drive.Common
 import NemoVerif.Models.Bind
+import NemoVerif.Models.BindHeap
 
 namespace NemoVerif.Drive.C08
 open Lean NemoVerif NemoVerif.Drive NemoVerif.Bind
@@ -83,6 +84,60 @@ def flowOfJson (j : Json) : Except String (String × FlowDef) := do
   let body ← listOfJson stmtOfJson (← j.getObjVal? "body")
   pure (name, { params, rets, body })
 
+
+/-! ### heap interpreter (`hexec`) -/
+
+def pathKeyOfJson (j : Json) : Except String PathKey :=
+  match j with
+  | .str k => pure (.key k)
+  | .num _ => do pure (.idx (← j.getNat?))
+  | _ => throw "bad path key"
+
+def methOfJson (name : String) (args : Array Json) : Except String Meth := do
+  match name, args.size with
+  | "append", 1 => pure (.append (← exprOfJson args[0]!))
+  | "extend", 1 => pure (.extend (← exprOfJson args[0]!))
+  | "insert", 2 =>
+    match ← exprOfJson args[0]! with
+    | .lit (.int 0) => pure (.insert0 (← exprOfJson args[1]!))
+    | _ => throw "insert: only index 0"
+  | "pop", 0 => pure .pop
+  | "pop", 2 =>
+    match ← exprOfJson args[0]!, ← exprOfJson args[1]! with
+    | .lit (.str k), .lit .none => pure (.popKey k)
+    | _, _ => throw "pop(k, None) expected"
+  | "clear", 0 => pure .clear
+  | "update", 1 =>
+    let d ← (← args[0]!.getObjVal? "d1").getArr?
+    if d.size = 2 then pure (.update1 (← d[0]!.getStr?) (← exprOfJson d[1]!)) else throw "bad d1"
+  | "add", 1 => pure (.add (← exprOfJson args[0]!))
+  | "discard", 1 => pure (.discard (← exprOfJson args[0]!))
+  | _, _ => throw s!"unknown method {name}"
+
+def hstmtOfJson (j : Json) : Except String HStmt := do
+  match optStr j "op" with
+  | some "mut" =>
+    let path ← listOfJson pathKeyOfJson (← j.getObjVal? "path")
+    let m ← methOfJson (← (← j.getObjVal? "meth").getStr?) (← (← j.getObjVal? "args").getArr?)
+    pure (.mut (← (← j.getObjVal? "var").getStr?) path m ((optStr j "ret").getD "_"))
+  | _ =>
+    match ← stmtOfJson j with
+    | .assign k e => pure (.assign k e)
+    | .global x => pure (.global x)
+    | .ret e => pure (.ret e)
+    | .send n a => pure (.send n a)
+    | .block => pure .block
+    | .call f r fl p nm => pure (.call f r fl p nm)
+
+def hflowOfJson (j : Json) : Except String (String × HFlowDef) := do
+  let name ← (← j.getObjVal? "name").getStr?
+  let params ← listOfJson paramOfJson (← j.getObjVal? "params")
+  let rets ← match j.getObjVal? "rets" with
+    | .ok r => listOfJson paramOfJson r
+    | .error _ => pure []
+  let body ← listOfJson hstmtOfJson (← j.getObjVal? "body")
+  pure (name, { params, rets, body })
+
 def errToString : Err → String
   | .ctxShared => "ctxShared" | .tooMany => "tooMany" | .keyError => "keyError" | .other => "other"
 
@@ -118,6 +173,20 @@ def handle (op : String) (j : Json) : Except String Json := do
           Json.arr (ev.2.map fun kv => Json.arr #[.str kv.1, valToJson kv.2]).toArray]).toArray),
       ("insts", Json.arr (s.insts.map fun uf => Json.arr #[Json.num (JsonNumber.fromNat uf.1), .str uf.2.flowId, ctxToJson uf.2.context]).toArray),
       ("globals", ctxToJson s.globals)])
+  | "hexec" =>
+    let flows ← listOfJson hflowOfJson (← j.getObjVal? "flows")
+    let main ← listOfJson hstmtOfJson (← j.getObjVal? "main")
+    let fuel ← (← j.getObjVal? "fuel").getNat?
+    let (s, oc) := runMainH flows fuel main
+    pure (Json.mkObj [
+      ("outcome", .str (outcomeToString oc)),
+      ("out", Json.arr (s.st.out.map fun ev => Json.arr #[.str ev.1,
+          Json.arr (ev.2.map fun kv => Json.arr #[.str kv.1, valToJson kv.2]).toArray]).toArray),
+      ("insts", Json.arr (s.st.insts.map fun uf => Json.arr #[Json.num (JsonNumber.fromNat uf.1), .str uf.2.flowId,
+          ctxToJson (derefCtx s.heap uf.2.context)]).toArray),
+      ("globals", ctxToJson (derefCtx s.heap s.st.globals)),
+      ("entries", Json.arr (s.entries.map fun e => Json.arr #[Json.num (JsonNumber.fromNat e.uid), .str e.flow,
+          ctxToJson e.ctx]).toArray)])
   | _ => throw s!"unknown op C08.{op}"
 
 end NemoVerif.Drive.C08
